@@ -598,6 +598,103 @@ fn truncate_contract_fat16() {
     truncate_contract(bpb_fat16());
 }
 
+// ghost record of the chain operations File::truncate delegates to (contracts: FileSystem::truncate_cluster_chain and
+// free_cluster_chain, proved separately: chain_glue_* in fs.rs over ClusterIterator::truncate/free in Verus unit table_iter)
+static mut G_TRUNC_ARG: Option<u32> = None;
+static mut G_FREE_ARG: Option<u32> = None;
+static mut G_CHAIN_CALLS: u32 = 0;
+
+fn stub_truncate_chain<IO: ReadWriteSeek, TP, OCC>(_fs: &FileSystem<IO, TP, OCC>, cluster: u32) -> Result<(), Error<IO::Error>> {
+    unsafe {
+        G_TRUNC_ARG = Some(cluster);
+        G_CHAIN_CALLS += 1;
+    }
+    if kani::any() {
+        Ok(())
+    } else {
+        Err(Error::CorruptedFileSystem)
+    }
+}
+
+fn stub_free_chain<IO: ReadWriteSeek, TP, OCC>(_fs: &FileSystem<IO, TP, OCC>, cluster: u32) -> Result<(), Error<IO::Error>> {
+    unsafe {
+        G_FREE_ARG = Some(cluster);
+        G_CHAIN_CALLS += 1;
+    }
+    if kani::any() {
+        Ok(())
+    } else {
+        Err(Error::CorruptedFileSystem)
+    }
+}
+
+fn truncate_modular(bpb: BiosParameterBlock) {
+    let max = bpb.total_clusters() + 2;
+    let mut dev = NdDev::read_only();
+    setup(&bpb, &mut dev);
+    let fs = mk_fs_plain(dev, bpb.clone(), FsStatusFlags::decode(0), opts(false, SymTime::fixed()));
+    let st = any_file_state(max, true, false);
+    let mut f = mk_file(&fs, &st);
+    let r = f.truncate();
+    let e = f.entry.as_ref().unwrap();
+    let d0 = st.data.as_ref().unwrap();
+    let (targ, farg, calls) = unsafe { (G_TRUNC_ARG, G_FREE_ARG, G_CHAIN_CALLS) };
+    // everything from the cursor onward is discarded: the size is the cursor; the cursor does not move
+    assert!(ed_data(e).size() == Some(st.offset));
+    assert!(f.offset == st.offset && f.current_cluster == st.current);
+    assert!(calls <= 1);
+    if st.offset == 0 {
+        // an empty file owns no cluster: the whole chain is released, in the entry and (once released) in memory
+        assert!(ed_data(e).first_cluster(fs.fat_type()).is_none());
+        assert!(targ.is_none());
+        assert!(farg == st.first);
+        if r.is_ok() {
+            assert!(f.first_cluster.is_none());
+        }
+        assert!(r.is_ok() || st.first.is_some());
+    } else {
+        // the chain is cut after the cluster the cursor is in; the first cluster stays
+        assert!(targ == st.current && farg.is_none() && calls == 1);
+        assert!(f.first_cluster == st.first);
+        assert!(ed_data(e).first_cluster(fs.fat_type()) == d0.first_cluster(fs.fat_type()));
+    }
+    if d0.size() != Some(st.offset) {
+        assert!(ed_dirty(e));
+    }
+    if !st.dirty && !ed_dirty(e) {
+        assert!(crate::dir_entry::verif_kani::sfn_eq(ed_data(e), d0));
+    }
+    assert!(d_created(ed_data(e)) == d_created(d0) && d_modified(ed_data(e)) == d_modified(d0));
+    assert!(ed_pos(e) == st.pos);
+    // no device access of its own
+    assert!(fs.disk.borrow().nlog == 0);
+    kani::cover!(st.offset == 0 && st.first.is_some() && r.is_ok());
+    kani::cover!(st.offset > 0 && r.is_err());
+    kani::cover!(st.offset == 0 && st.first.is_none());
+    core::mem::forget(f);
+    core::mem::forget(fs);
+}
+
+// @obl props=C02,C03,C05 tier=quick fns=File::truncate timeout=600
+// @desc File::truncate (real body; FileSystem::truncate_cluster_chain / free_cluster_chain replaced by their contracts) from ANY inv_file state of a regular file on a FAT16 volume: size := cursor, cursor and current cluster unchanged; with the cursor inside the file the chain is cut exactly after the cursor's cluster and the first cluster stays; at cursor 0 the whole chain from the first cluster is released and the file gives up its first cluster in the entry and, once the release succeeded, in memory; the entry is marked dirty when the size changed and otherwise untouched; timestamps and entry position untouched; at most one chain operation; no device access of its own
+#[kani::proof]
+#[kani::unwind(13)]
+#[kani::stub(crate::fs::FileSystem::truncate_cluster_chain, stub_truncate_chain)]
+#[kani::stub(crate::fs::FileSystem::free_cluster_chain, stub_free_chain)]
+fn truncate_modular_fat16() {
+    truncate_modular(bpb_fat16());
+}
+
+// @obl props=C02,C03,C05 tier=quick fns=File::truncate timeout=600
+// @desc the same contract of File::truncate on a FAT32 volume (the first-cluster field spans both words of the entry)
+#[kani::proof]
+#[kani::unwind(13)]
+#[kani::stub(crate::fs::FileSystem::truncate_cluster_chain, stub_truncate_chain)]
+#[kani::stub(crate::fs::FileSystem::free_cluster_chain, stub_free_chain)]
+fn truncate_modular_fat32() {
+    truncate_modular(bpb_fat32());
+}
+
 fn seek_arith(bpb: BiosParameterBlock) {
     let cs = bpb.cluster_size();
     let max = bpb.total_clusters() + 2;
